@@ -8,6 +8,7 @@ import (
 	"golang.org/x/tools/go/ssa"
 
 	"verif/sa/core"
+	"verif/sa/lincon"
 )
 
 func init() {
@@ -351,6 +352,7 @@ func runC09(c *Ctx) {
 	c.L.Floor("C09.callback-unlocked", 1)
 	c.L.Floor("C09.no-stale-after-relock", 1)
 	c.L.Floor("C09.refusal-pure", 2)
+	c09Config(c)
 	c.L.Floor("C09.set-result", 1)
 	c.L.Floor("C09.get-counts", 2)
 
@@ -1187,4 +1189,69 @@ func cacheUnlockWindowRules(c *Ctx, ci *cacheInfo, prop string) {
 		}
 		c.check(n == 0, prop+".no-stale-after-relock", fn, "no guarded value crosses an unlock window", nil, sprintf("%d re-lock site(s) examined", len(relocks)))
 	}
+}
+
+// c09Config: the constructor establishes what the eviction loop relies on —
+// MaxSize >= 1, MaxCount >= 1 and MaxElementSize <= MaxSize for every Config
+// (E1 assertion at the return of newCache).  Without the last one an element
+// larger than the whole cache passes the size test in Set and the eviction
+// loop then runs on an empty list.
+func c09Config(c *Ctx) {
+	c.L.Floor("C09.config", 3)
+	nc := c.fn("cache", "newCache")
+	if nc == nil {
+		return
+	}
+	fieldIdx := func(t types.Type, name string) int {
+		for {
+			if p, ok := t.Underlying().(*types.Pointer); ok {
+				t = p.Elem()
+				continue
+			}
+			break
+		}
+		st, ok := t.Underlying().(*types.Struct)
+		if !ok {
+			return -1
+		}
+		for i := 0; i < st.NumFields(); i++ {
+			if st.Field(i).Name() == name {
+				return i
+			}
+		}
+		return -1
+	}
+	var obj *ssa.Alloc
+	for _, ret := range core.Returns(nc) {
+		if al, ok := ret.Results[0].(*ssa.Alloc); ok {
+			obj = al
+		}
+	}
+	if obj == nil {
+		c.undecided("C09.config", nc, "the cache object returned by newCache", nil, "not a local allocation")
+		return
+	}
+	ci := fieldIdx(obj.Type(), "conf")
+	if ci < 0 {
+		c.undecided("C09.config", nc, "field conf", nil, "not found")
+		return
+	}
+	confT := obj.Type().Underlying().(*types.Pointer).Elem().Underlying().(*types.Struct).Field(ci).Type()
+	path := func(name string) string { return sprintf(".%d.%d", ci, fieldIdx(confT, name)) }
+	lincon.Reset()
+	a := lincon.New(c.P.SSA, core.InModule)
+	a.Hook = func(h *lincon.Handle) {
+		ret, ok := h.Instr.(*ssa.Return)
+		if !ok || ret.Parent() != nc {
+			return
+		}
+		ms, ok1 := h.Cell(obj, path("MaxSize"))
+		mc, ok2 := h.Cell(obj, path("MaxCount"))
+		me, ok3 := h.Cell(obj, path("MaxElementSize"))
+		h.Assert("config", "conf.MaxSize >= 1 when newCache returns", ok1 && h.ProvesLE(ms.Neg().AddK(1)))
+		h.Assert("config", "conf.MaxCount >= 1 when newCache returns", ok2 && h.ProvesLE(mc.Neg().AddK(1)))
+		h.Assert("config", "conf.MaxElementSize <= conf.MaxSize when newCache returns", ok1 && ok3 && h.ProvesLE(me.Sub(ms)))
+	}
+	a.Entry(nc, nil)
+	recordObligations(c, a, "C09", func(o *lincon.Oblig) bool { return strings.HasPrefix(o.Kind, "assert:") })
 }
